@@ -23,7 +23,21 @@ RULE = ("histories of 1..6 editing operations (list insert/append/pop, list-leve
         "below keeps its parent or is captured' are judged there. Object-level operations take their object from the committed "
         "tree: while an uncommitted change is pending (auto_commit off) delete/append_to_family are skipped on both sides, because "
         "line numbers of held objects are documented to be stale until commit. non-trivial = a history with at least one successful "
-        "mutation; distinct by request. The buckets `frame:*` count the situations of the parent-frame theorems that occurred.")
+        "mutation; distinct by request. The buckets `frame:*` count the situations of the parent-frame theorems that occurred. "
+        "INPUT FORMS AND REJECTIONS (added after a line/branch coverage report of the anchored functions, notes/coverage/C06.json; "
+        "channel `editx`, model Ccp.Model.EditForms): stream `forms` = 142 single operations on every seed config (+ a third of them under "
+        "ignore_blank_lines, a quarter under nxos with auto_commit off, half of the list-level ones on the banner/macro configs): a "
+        "BaseCfgLine object (not in the list) instead of the str as payload of ConfigList.insert, obj.insert_before/after, list-level "
+        "insert_before/after and append_to_family; a foreign BaseCfgLine as exist_val of the list-level inserts (its text is the regex, "
+        "the empty text included); values that are neither str nor BaseCfgLine as payload or pattern (None, int, list, float, bytes) and "
+        "a non-int index for insert (None, '1', 1.5) — the exception class is compared with the model and pinned by the oracle; "
+        "ConfigList.remove(obj) / remove(foreign line) / remove(str); `del2` = delete() twice through the same handle "
+        "(ConfigListItemDoesNotExist, IndexError, or a second deletion when an equal line has moved to the handle's number; configs with "
+        "runs of equal texts make the last two happen). Stream `forms-rand` = 700 histories of 1..4 operations mixing these with the "
+        "old alphabet, every third one (ignore_blank_lines off) parsed with factory=True — there append_to_family is not generated "
+        "(always refused after a possible change of the target's children list, known finding F10e) and insert is expected to be "
+        "refused (F10e). Stream `cfi` = 260 direct calls of classify_family_indent (str / line object / other value; indents 0..8 against "
+        "widths 1 and 2); stream `det` = 120 replace_text / re_sub sequences on a line object that belongs to no configuration.")
 LEVEL_TEXT = ("Theorems (Lean 4, Ccp.Props.C06, for all states and payloads of the edit state machine; text effect of one step when the "
               "following commit does not filter, i.e. auto_commit off, or on without ignore_blank_lines): insert(k)/append/pop(k) are exactly "
               "Python's list operations with the index normalisation stated (pop out of range = IndexError, state unchanged); list-level "
@@ -72,7 +86,22 @@ LEVEL_TEXT = ("Theorems (Lean 4, Ccp.Props.C06, for all states and payloads of t
               "With auto_commit on and ignore_blank_lines the texts are one bootstrap of the auto_commit-off result: a sublist of it keeping "
               "every non-blank line. The model is tied to the code by differential runs of whole histories (texts after every step, tree after "
               "every commit), and the parent-frame theorems are additionally replayed by the Python oracle on the implementation's own trees "
-              "(an independent re-implementation of captured_iff).")
+              "(an independent re-implementation of captured_iff). "
+              "Input forms (stepX / stepF of Ccp.Model.EditForms, tied to the code by the same differential runs): a BaseCfgLine payload is "
+              "its text for insert, obj.insert_before/after and append_to_family (line_payload_is_text); list-level inserts with str "
+              "arguments are the operation of the first part (listInsert_str_forms), a foreign line object as pattern is the regex of its "
+              "text, empty text included (listInsert_foreign_pattern), a line object as new_val is its text except that the blank-line "
+              "guard of ignore_blank_lines looks at str payloads only (listInsert_line_payload) — the blank line object is inserted and, on "
+              "a committed plain config, dropped again by the commit: texts and tree unchanged (listInsert_blank_line_dropped); every "
+              "value that is neither str nor line, a non-int index, a non-line / foreign argument of remove is refused with the class of its "
+              "entry point and the state is unchanged (malformed_rejected, errorsX_leave_state); ConfigList.remove(obj) is delete at list "
+              "level: the line and its descendants, nothing else (remove_is_delete, remove_spec); delete() twice through one handle: "
+              "always ConfigListItemDoesNotExist with auto_commit off; with auto_commit on refused unless the line now at the handle's "
+              "number has the deleted line's text, in which case the stale numbers are deleted once more or IndexError is raised "
+              "(deleteTwice_spec); under factory=True insert is refused with InvalidParameters after the index check and before the value "
+              "check, append_to_family never changes the list, everything else is as without the factory (factory_insert_refused, known "
+              "finding F10e); classify_family_indent called directly accepts a str only and returns the level difference "
+              "(classify_direct); replace_text / re_sub on a detached line are the same text functions (detached_edit).")
 LEVEL_NOTE = ("Trusted: Lean kernel, standard axioms, harness. Regexes are oracle data (rows / substituted texts computed with re by the "
               "harness); str.replace is modelled for a non-empty 'before'. Partial: the same-indent append_to_family placement is proved as the "
               "code does it (self + |children|, known finding F10b), not as the property wants it; for a childless target and a same-indent "
@@ -86,8 +115,17 @@ LEVEL_NOTE = ("Trusted: Lean kernel, standard axioms, harness. Regexes are oracl
               "early — decided counterexample), payloads that start a family, delete / replace below the edit, ignore_blank_lines together "
               "with families; for those only C07's 'tree after commit = fresh parse' applies. Not covered: states with uncommitted changes "
               "(auto_commit off), where no tree exists until the commit. The list-level frame is stated over positions of the new list "
-              "(rank = old position), not as a closed formula old index -> new index.")
-ASSUMPTIONS = ["object handles are used only on a committed state", "auto_indent_width is the syntax default (1, or 2 for nxos)"]
+              "(rank = old position), not as a closed formula old index -> new index. Known finding F10e: with factory=True "
+              "ConfigList.insert (hence append_to_family) always raises InvalidParameters — config_line_factory is called without all_lines; "
+              "modelled as the code does it (stepF), proposed patch notes/proposed-fixes/C06-2.patch; under factory=True a refused "
+              "append_to_family may already have put the new line into the target's children list (not modelled, not generated). "
+              "Observed, outside the property (ConfigList.append is typed `value: str`): append(<BaseCfgLine or any non-str>) stores a line "
+              "whose text is that object and then raises ValueError from the commit, leaving the list corrupted. Anchored lines never "
+              "executed by the quick run: 113 of 379 before the input-form streams, 64 after; the rest is debug logging, branches that "
+              "cannot be reached on a consistent tree (children without all_children and the like), a non-bool factory, a non-int "
+              "auto_indent_width, and ConfigList.__init__'s argument checks (the constructor is no editing operation).")
+ASSUMPTIONS = ["object handles are used only on a committed state (the one stale-handle case modelled is delete() twice in a row)",
+               "auto_indent_width is the syntax default (1, or 2 for nxos)"]
 TRUSTED = ["regex oracle rows", "str.replace modelled for non-empty 'before'"]
 EXHAUSTIVE = {"quick": False, "thorough": False}
 
@@ -160,6 +198,102 @@ def banner_seeds():
     ]
 
 
+# ---- the other accepted input forms and the rejections (ops of channel `editx`, see editlib.enc_op):
+# ---- S = the text as a str, L = a line object (BaseCfgLine) that is in no list, X = neither
+def form_ops():
+    ops = []
+    for txt in ["n", " n", "! k", " "]:
+        ops += [["insf", 0, "L", txt], ["insf", 2, "L", txt], ["insf", -1, "L", txt]]
+        for h in range(4):
+            ops += [["oibf", h, "L", txt], ["oiaf", h, "L", txt], ["atfl", h, txt, -1, False]]
+    for h in range(4):
+        ops += [["oibf", h, "X", "x" * h], ["oiaf", h, "X", "x" * h], ["atfl", h, "q", -1, True], ["atfl", h, "q", 2, False],
+                ["rem", h], ["del2", h]]
+    ops += [["insf", "X", "S", "n"], ["insf", "X", "L", "nn"], ["insf", "X", "X", "nnn"], ["insf", 1, "X", "n"], ["insf", -1, "X", "nn"]]
+    for rx in ["a", "^a$", "Eth1", " b", "", "^ ", "zzz", "a.b"]:
+        ops += [["libf", "L", rx, "S", "new"], ["liaf", "L", rx, "S", " new"], ["libf", "S", rx, "L", "new"], ["liaf", "S", rx, "L", " "],
+                ["libf", "L", rx, "L", " "], ["liaf", "S", rx, "X", "new"]]
+    ops += [["libf", "X", "", "S", "new"], ["liaf", "X", "", "L", "new"], ["libf", "X", "", "X", "new"], ["remf"], ["remx"]]
+    return ops
+
+
+def rand_form_op(rng):
+    txt = rng.choice(E.PAYLOADS)
+    h = rng.randrange(0, 64)
+    form = rng.choice(["L", "L", "L", "S", "X"])
+    r = rng.random()
+    if r < 0.15:
+        return ["insf", rng.choice([0, 1, 2, -1, -2, 99, "X"]), form, txt]
+    if r < 0.35:
+        return [rng.choice(["oibf", "oiaf"]), h, form, txt]
+    if r < 0.55:
+        return [rng.choice(["libf", "liaf"]), rng.choice(["L", "L", "S", "X"]), rng.choice(E.REGEXES + ["", " b", "a"]), form, txt]
+    if r < 0.70:
+        mode = rng.random()
+        if mode < 0.4:
+            return ["atfl", h, txt, -1, False]
+        if mode < 0.7:
+            return ["atfl", h, txt.lstrip() or "x", -1, True]
+        return ["atfl", h, txt, rng.choice([1, 2, 3, 4]), rng.random() < 0.1]
+    if r < 0.82:
+        return ["rem", h]
+    if r < 0.94:
+        return ["del2", h]
+    return [rng.choice(["remf", "remx"])]
+
+
+def rand_form_ops(rng, n, auto):
+    ops = []
+    for _ in range(n):
+        if rng.random() < 0.5:
+            ops += E.rand_ops(rng, 1, auto)
+        else:
+            ops.append(rand_form_op(rng))
+            if not auto and rng.random() < 0.25:
+                ops.append(["commit"])
+    return ops
+
+
+def dup_config(rng):
+    """short configs with equal texts in a row: after a delete the same text can sit at the deleted line's number
+    (the one situation in which a second delete() through the same handle is not refused)"""
+    out = []
+    for _ in range(rng.randint(2, 7)):
+        out.append(rng.choice(["", "", " ", "  "]) + rng.choice(["a", "a", "a", "b"]))
+    return out
+
+
+def aux_cases(rng, tier):
+    """calls that are not part of a history: classify_family_indent called directly (any argument form), and
+    replace_text / re_sub on a line object that belongs to no configuration"""
+    n = {"quick": 260, "thorough": 6000, "search": 200}[tier]
+    for _ in range(n):
+        syntax = rng.choice(["ios", "ios", "nxos", "asa"])
+        st = " " * rng.choice([0, 0, 1, 2, 3, 4, 6]) + rng.choice(["a", "interface Eth1", "! c"])
+        form = rng.choice(["S", "S", "S", "S", "S", "L", "X"])
+        txt = " " * rng.choice([0, 1, 2, 3, 4, 5, 6, 8]) + rng.choice(["x", "", "! k", "a b"])
+        yield {"kind": "cfi", "syntax": syntax, "self": st, "form": form, "txt": txt, "_origin": "cfi",
+               "req": wire.req("editx", "cfi", str(E.width_of(syntax)), wire.enc_str(st), form,
+                               wire.enc_str(txt if form != "X" else ""))}
+    m = {"quick": 120, "thorough": 3000, "search": 100}[tier]
+    for _ in range(m):
+        text = rng.choice(E.PAYLOADS + [" a.b a(b", "Eth1 Eth10 Eth1"])
+        ops = []
+        for _ in range(rng.choice([1, 2, 3])):
+            if rng.random() < 0.5:
+                ops.append(["rep", rng.choice(["a", "Eth1", "b", " ", "1.1", "{", "("]), rng.choice(["", "z", "a", "{q}"])])
+            else:
+                ops.append(["sub", rng.choice(E.REGEXES[:10]), rng.choice(["", "z", r"\g<0>\g<0>", "a"])])
+        # the substituted texts are oracle data of the model (as in a history), computed here on the harness's own
+        # replay of the operations, not on what the implementation returned
+        cur, enc = text, []
+        for o in ops:
+            cur = cur.replace(o[1], o[2]) if o[0] == "rep" else re.sub(o[1], o[2], cur)
+            enc.append(f"rep:{wire.enc_str(o[1])}:{wire.enc_str(o[2])}" if o[0] == "rep" else "sub:" + wire.enc_str(cur))
+        yield {"kind": "det", "syntax": rng.choice(["ios", "nxos", "asa"]), "text": text, "ops": ops, "_origin": "det",
+               "req": wire.req("editx", "det", wire.enc_str(text), *enc)}
+
+
 def cases(rng, tier):
     if tier != "search":
         for lines in seeds():
@@ -197,20 +331,156 @@ def cases(rng, tier):
             lines = plain_config(rng, ign and rng.random() < 0.5)
         ops = [directed_ops(rng, lines, E.width_of(syntax), ign) for _ in range(rng.choice([1, 1, 2, 3]))]
         yield E.mk_case(syntax, ign, True, lines, ops, "directed")
+    # the input-form streams come last: the cases above are, seed by seed, the ones generated before they existed
+    if tier != "search":
+        fo = form_ops()
+        for lines in seeds():
+            for op in fo:
+                yield E.mk_case("ios", False, True, lines, [op], "forms")
+            for op in fo[::3]:
+                yield E.mk_case("ios", True, True, lines, [op], "forms-ign")
+            for op in fo[1::4]:
+                yield E.mk_case("nxos", False, False, lines, [op], "forms-nxos")
+        for lines in banner_seeds():
+            for op in fo[::2]:
+                if op[0] in ("atfl", "rem", "del2"):
+                    continue
+                yield E.mk_case("ios", False, True, lines, [op], "forms-banner")
+    nf = {"quick": 700, "thorough": 30000, "search": 1200}[tier]
+    for j in range(nf):
+        syntax = rng.choice(["ios", "ios", "nxos", "asa", "iosxr"])
+        auto = rng.random() < 0.7
+        ign = rng.random() < 0.3
+        r = rng.random()
+        if r < 0.35:
+            lines = rng.choice(seeds())
+        elif r < 0.65:
+            lines = dup_config(rng)
+        else:
+            lines = plain_config(rng, ign and rng.random() < 0.5)
+        # every third history runs with factory=True (the lines are then built by config_line_factory)
+        ops = rand_form_ops(rng, rng.choice([1, 2, 3, 4]), auto)
+        factory = j % 3 == 0 and not ign      # (CiscoConfParse refuses factory together with ignore_blank_lines)
+        if factory:
+            # under factory=True append_to_family is always refused (through ConfigList.insert, known finding F10e)
+            # AFTER it may have put the new line into the target's children list: not modelled, not generated
+            ops = [o for o in ops if o[0] not in ("atf", "atfl")] or [["app", "x"]]
+        yield E.mk_case(syntax, ign, auto, lines, ops, "forms-rand", factory=factory)
+    yield from aux_cases(rng, tier)
 
 
 def neighbours(case, rng):
+    if case.get("kind"):
+        return
     for _ in range(150):
         ops = list(case["ops"])
         if len(ops) > 1 and rng.random() < 0.5:
             del ops[rng.randrange(len(ops))]
         else:
             ops.insert(rng.randrange(len(ops) + 1), E.rand_ops(rng, 1, case["auto_commit"])[0])
-        yield E.mk_case(case["syntax"], case["ignore_blank"], case["auto_commit"], case["lines"], ops)
+        yield E.mk_case(case["syntax"], case["ignore_blank"], case["auto_commit"], case["lines"], ops,
+                        factory=case.get("factory", False))
 
 
 def impl(case):
+    if case.get("kind") == "cfi":
+        return impl_cfi(case)
+    if case.get("kind") == "det":
+        return impl_det(case)
     return E.run_history(case)
+
+
+def impl_cfi(case):
+    from props.common import quiet_ccp
+    quiet_ccp()
+    from ciscoconfparse2 import CiscoConfParse
+    p = CiscoConfParse([case["self"]], syntax=case["syntax"], factory=False)
+    try:
+        return str(p.config_objs[0].classify_family_indent(E.mk_arg(case["form"], case["txt"], case["syntax"])))
+    except Exception as e:  # noqa: BLE001 — the class is the outcome
+        return "err:" + type(e).__name__
+
+
+def impl_det(case):
+    from props.common import quiet_ccp
+    quiet_ccp()
+    obj = E.mk_arg("L", case["text"], case["syntax"])
+    out = []
+    for o in case["ops"]:
+        try:
+            if o[0] == "rep":
+                obj.replace_text(o[1], o[2])
+            else:
+                obj.re_sub(o[1], o[2])
+            out.append(wire.enc_str(obj.text))
+        except Exception as e:  # noqa: BLE001
+            out.append("err:" + type(e).__name__)
+    return "|".join(out)
+
+
+def oracle_aux(case, ans):
+    if case["kind"] == "cfi":
+        width = E.width_of(case["syntax"])
+        if case["form"] != "S":
+            return [] if ans == "err:InvalidParameters" else [f"classify_family_indent({case['form']}-form argument): {ans}, expected InvalidParameters"]
+        it = len(case["txt"]) - len(case["txt"].lstrip())
+        si = len(case["self"]) - len(case["self"].lstrip())
+        if it % width != 0:
+            return [] if ans == "err:NotImplementedError" else [f"indent {it} is no multiple of {width}: {ans}, expected NotImplementedError"]
+        if ans.startswith("err:") or not re.fullmatch(r"-?\d+", ans):
+            return [f"unexpected {ans}"]
+        d = it - si
+        if d % width == 0:
+            return [] if int(ans) == d // width else [f"classify_family_indent = {ans}, expected {d // width} levels"]
+        # the object itself is not on a multiple of the width: the docstring is silent; between floor and ceiling
+        return [] if d // width <= int(ans) <= -((-d) // width) else [f"classify_family_indent = {ans} for an indent difference of {d}"]
+    cur, want = case["text"], []
+    for o in case["ops"]:
+        cur = cur.replace(o[1], o[2]) if o[0] == "rep" else re.sub(o[1], o[2], cur)
+        want.append(wire.enc_str(cur))
+    return [] if ans == "|".join(want) else [f"detached line: texts {ans} expected {'|'.join(want)}"]
+
+
+def rejection(case, op):
+    """the error the new entry points must answer a malformed form with (None = the call must be accepted)"""
+    k = op[0]
+    ign = case["ignore_blank"]
+    if k == "insf":
+        if op[1] == "X":
+            return "err:ValueError"
+        if op[2] == "X":
+            return "err:TypeError"
+    elif k in ("oibf", "oiaf"):
+        if op[2] == "X":
+            return "err:NotImplementedError"
+        if op[3].strip() == "" and ign:
+            return "err:InvalidParameters"
+    elif k in ("libf", "liaf"):
+        if op[3] == "S" and op[4].strip() == "" and ign:
+            return "err:InvalidParameters"
+        if op[1] == "X" or (op[1] == "S" and op[2] == "") or op[3] == "X":
+            return "err:ValueError"
+    elif k == "remf":
+        return "err:ValueError"
+    elif k == "remx":
+        return "err:InvalidParameters"
+    return None
+
+
+def canon(op):
+    """an accepted form, as the operation on texts it stands for"""
+    k = op[0]
+    if k == "insf":
+        return ["ins", op[1], op[3]]
+    if k in ("oibf", "oiaf"):
+        return [k[:3], op[1], op[3]]
+    if k in ("libf", "liaf"):
+        return [k[:3], op[2], op[4]]
+    if k == "atfl":
+        return ["atf"] + op[1:]
+    if k == "rem":
+        return ["del", op[1]]
+    return op
 
 
 def descendants(parents, i):
@@ -366,6 +636,8 @@ def ins_pos(n, k):
 
 
 def oracle(case, ans):
+    if case.get("kind"):
+        return oracle_aux(case, ans)
     steps = E.parse_answer(ans)
     fails = []
     width = E.width_of(case["syntax"])
@@ -387,6 +659,26 @@ def oracle(case, ans):
             if cur != prev:
                 fails.append(f"{tag}: skipped but the text changed")
             continue
+        if k in E.EXT_OPS:
+            # the other input forms: a malformed one is refused with the class of its entry point and changes
+            # nothing; an accepted one is judged as the operation on texts it stands for
+            want_err = rejection(case, op)
+            if want_err is not None:
+                if status != want_err:
+                    fails.append(f"{tag}: {status}, expected {want_err}")
+                elif cur != prev:
+                    fails.append(f"{tag}: {status} but the text changed")
+                continue
+            if k == "del2":
+                f = check_del2(case, status, at, prev, cur, dump_prev, dump_cur)
+                if f:
+                    fails.append(f"{tag}: {f}")
+                continue
+            if status != "ok" and not (k == "atfl" and status == "err:NotImplementedError"):
+                fails.append(f"{tag}: unexpected {status}")
+                continue
+            op = canon(op)
+            k = op[0]
         if status != "ok":
             if cur != prev:
                 fails.append(f"{tag}: {status} but the text changed")
@@ -488,6 +780,29 @@ def oracle(case, ans):
     return fails[:3]
 
 
+def check_del2(case, status, i, prev, cur, dump_prev, dump_cur):
+    """delete() twice through the same handle: the first removes the line and its descendants; the second is refused
+    with ConfigListItemDoesNotExist unless a line with the same text now sits at the handle's line number — then it
+    deletes the handle's (stale) line numbers once more, or raises IndexError when they no longer exist"""
+    gone = {i} | set(descendants(dump_prev["parents"], i))
+    once = [t for j, t in enumerate(prev) if j not in gone]
+    same_place = case["auto_commit"] and i < len(once) and once[i] == prev[i]
+    if status == "err:ConfigListItemDoesNotExist":
+        if same_place:
+            return "refused although an equal line is at the handle's line number"
+        return None if cur == once else f"texts {cur!r} expected {once!r} (one delete)"
+    if not same_place:
+        return f"{status}, expected ConfigListItemDoesNotExist (the line is gone)"
+    if status == "err:IndexError":
+        if max(gone) < len(once):
+            return "IndexError although every stale line number exists"
+        return None if cur == once else f"texts {cur!r} expected {once!r} (one delete)"
+    if status != "ok":
+        return f"unexpected {status}"
+    twice = [t for j, t in enumerate(once) if j not in gone]
+    return None if cur == twice else f"texts {cur!r} expected {twice!r}"
+
+
 def check_atf(case, op, i, prev, cur, dump_prev, dump_cur, width):
     """exactly one line added, all other lines keep text and order; a child-level append lands inside the
     target's family and no existing line changes parent"""
@@ -555,6 +870,8 @@ def check_atf(case, op, i, prev, cur, dump_prev, dump_cur, width):
 
 
 def known_id(case, failure):
+    if case.get("factory") and "unexpected err:InvalidParameters" in failure and ("['ins'," in failure or "['insf'," in failure):
+        return "F10e"
     if "same-indent-reparent" in failure:
         return "F10b"
     if "noncfg-target-reparent" in failure:
@@ -563,15 +880,23 @@ def known_id(case, failure):
 
 
 def nontrivial(case):
+    if case.get("kind"):
+        return True
     return any(o[0] not in ("commit", "probe") for o in case["ops"])
 
 
 def describe(case):
-    return {k: case[k] for k in ("syntax", "auto_commit", "lines", "ops")}
+    if case.get("kind"):
+        return {k: v for k, v in case.items() if k not in ("req", "_origin")}
+    return {k: case[k] for k in ("syntax", "auto_commit", "lines", "ops", "factory", "ignore_blank")}
 
 
 def buckets(case, ans):
-    out = ["syntax:" + case["syntax"], "auto:%d" % case["auto_commit"], "ops:%d" % len(case["ops"]),
+    if case.get("kind") == "cfi":
+        return ["aux:cfi:" + case["form"] + ":" + ("err" if ans.startswith("err:") else "int"), "syntax:" + case["syntax"]]
+    if case.get("kind") == "det":
+        return ["aux:det:ops:%d" % len(case["ops"])]
+    out = ["factory:%d" % bool(case.get("factory")), "syntax:" + case["syntax"], "auto:%d" % case["auto_commit"], "ops:%d" % len(case["ops"]),
            "ignore_blank:%d" % case["ignore_blank"]]
     for op, part in zip(case["ops"], ans.split("#")[1:]):
         out.append("op:" + op[0] + ":" + part.split("~")[0].split("@")[0])
@@ -588,6 +913,10 @@ def buckets(case, ans):
         status, _, cur, dc, at = steps[idx + 1]
         if status != "ok" or dp is None or dc is None:
             continue
+        if op[0] in E.EXT_OPS:
+            if rejection(case, op) is not None or op[0] == "del2":
+                continue
+            op = canon(op)
         k = op[0]
         if not is_plain(prev) or not is_plain(cur):
             ios = case["syntax"] == "ios"
